@@ -30,7 +30,7 @@ func RunPartWire(property string, p Part) int {
 }
 
 func budget(tier string) time.Duration {
-	b := 4 * time.Minute
+	b := 6 * time.Minute
 	if tier == "thorough" {
 		b = 40 * time.Minute
 	}
